@@ -5,6 +5,8 @@ property text and the worktree paths - nothing from /verif.
 usage: tools/seed_prompt.py <tag> C07 [C08 ...]"""
 import json, subprocess, sys
 tag, ids = sys.argv[1], sys.argv[2:]
+import os
+avoid = json.load(open("/tmp/avoid.json")) if os.path.exists("/tmp/avoid.json") and tag != "w1" else {}
 props = {json.loads(l)["id"]: json.loads(l) for l in open("/verif/properties.jsonl") if l.strip()}
 parts = []
 for pid in ids:
@@ -17,6 +19,7 @@ Statement: {p['statement']}
 Quantified over: {p['quantifier']['text']}
 Relevant source files: {', '.join(p['anchors']['files'])}
 Your scratch git worktree for this property: {wt}   (work ONLY there; python: PYTHONPATH={wt} /venv/bin/python)
+{("An earlier, independent change for this property already targeted: " + avoid[pid] + ". Choose a DIFFERENT function and mechanism, and a different clause of the property if it has several.") if pid in avoid else ""}
 """)
 print(f"""You are helping to evaluate a verification effort for the Python library abTEM (transmission electron microscopy simulation). For each property below, make ONE realistic change to the abTEM source code in the given scratch git worktree that BREAKS the property while the library still imports and the existing test suite still passes, and write a small demonstration program that shows the breakage.
 
